@@ -18,6 +18,12 @@ func c03VersionGen(r *Rand, c *Case) {
 	c.Cfg["holdpct"] = int64(r.Pick(0, 30, 70))
 	c.Cfg["sameseg"] = int64(r.Intn(2))
 	c.Cfg["rounds"] = int64(r.Range(1, 3))
+	if r.Pct(50) {
+		// the tags are reused at once after Rversion, while the aborted requests are still parked in the implementation
+		c.Stratum = "tversion-mid-session-eager"
+		c.Cfg["eager"] = 1
+		c.Cfg["holdpct"] = int64(r.Pick(30, 70, 100))
+	}
 }
 
 func c03Version(x *Ctx) {
@@ -40,7 +46,10 @@ func c03Version(x *Ctx) {
 	r := NewRand(c.Seed ^ 0x7e55)
 	done := false
 	settled := 0
+	releaseOK := true
+	eager := c.cfg("eager") != 0
 	var fresh []*Sent
+	cancelled := map[*Sent]bool{}
 	rt.Go(rt.SiteSpawn, func() {
 		rt.SetName("client")
 		if rr := p.Call(&Msg{Type: Tversion, Tag: NOTAG, Msize: ms, Version: "9P2000.u"}); rr == nil || rr.M == nil || rr.M.Type != Rversion {
@@ -51,7 +60,99 @@ func c03Version(x *Ctx) {
 			x.Violate("setup", "Tattach failed")
 			return
 		}
-		for round := 0; round < int(c.cfg("rounds")); round++ {
+		if eager {
+			if rr := p.Call(&Msg{Type: Topen, Tag: 1, Fid: 0, Mode: 0}); rr == nil || rr.M == nil || rr.M.Type != Ropen {
+				x.Violate("setup", "Topen failed")
+				return
+			}
+		}
+		for round := 0; round < int(c.cfg("rounds")) && eager; round++ {
+			// every request outstanding at the Tversion is parked in the implementation (or queued behind one that
+			// is) and stays there: none of them can be answered any more. Their tags are used again at once, for
+			// reads that each ask for a different count; some of those are cancelled with Tflush and the tag used
+			// a third time after the Rflush. Every reply is attributed by tag to the newest request under it.
+			releaseOK = false
+			var old []*Sent
+			for i := 0; i < n; i++ {
+				tag := uint16(10 + i)
+				holdTag[tag] = true
+				old = append(old, p.Write(&Msg{Type: Tstat, Tag: tag, Fid: 0})[0])
+			}
+			want := settled + 1
+			rt.YieldUntil(rt.SiteActor, func() bool { return settled >= want || p.EOF })
+			answered := 0
+			for _, s := range old {
+				if s.Reply != nil {
+					answered++
+				}
+			}
+			if answered > 0 {
+				x.Violate("setup", "%d parked requests were answered", answered)
+				return
+			}
+			if vr := p.Call(&Msg{Type: Tversion, Tag: NOTAG, Msize: ms, Version: "9P2000.u"}); vr == nil || vr.M == nil || vr.M.Type != Rversion {
+				x.Violate("r3-no-reply", "the mid-session Tversion was not answered with Rversion")
+				return
+			}
+			for _, s := range old {
+				p.dropOut(s)
+			}
+			x.Probe("requests-dropped-by-tversion")
+			// fid 0 is gone with the session: attach and open again, under tags that were not outstanding
+			if rr := p.Call(&Msg{Type: Tattach, Tag: 1, Fid: 0, Afid: NOFID, Uname: "u1", Nuname: 1}); rr == nil || rr.M == nil {
+				x.Violate("r3-no-reply", "Tattach after the mid-session Tversion got no reply")
+				return
+			} else if rr.M.Type == Rattach {
+				p.Call(&Msg{Type: Topen, Tag: 1, Fid: 0, Mode: 0})
+			}
+			var live []*Sent
+			for i := 0; i < n; i++ {
+				tag := uint16(10 + i)
+				holdTag[tag] = r.Pct(holdpct)
+				s := p.Write(&Msg{Type: Tread, Tag: tag, Fid: 0, Offset: 0, Count: uint32(100 + i)})[0]
+				live = append(live, s)
+				fresh = append(fresh, s)
+			}
+			releaseOK = true
+			for k := r.Intn(n + 1); k > 0; k-- {
+				i := r.Intn(n)
+				y := live[i]
+				if y.M.Count >= 300 {
+					continue // cancelled before
+				}
+				for j := r.Intn(6); j > 0; j-- {
+					rt.Yield(rt.SiteActor)
+				}
+				fl := p.Call(&Msg{Type: Tflush, Tag: uint16(200 + i), Oldtag: y.M.Tag})
+				if fl == nil || fl.M == nil || fl.M.Type != Rflush {
+					x.Violate("r3-no-reply", "Tflush of tag %d got %v", y.M.Tag, fl)
+					return
+				}
+				if y.Reply == nil {
+					p.dropOut(y) // cancelled: no reply will come
+					cancelled[y] = true
+					x.Probe("cancelled-after-tversion")
+				}
+				holdTag[y.M.Tag] = r.Pct(holdpct)
+				z := p.Write(&Msg{Type: Tread, Tag: y.M.Tag, Fid: 0, Offset: 0, Count: uint32(300 + i)})[0]
+				live[i] = z
+				fresh = append(fresh, z)
+			}
+			rt.YieldUntil(rt.SiteActor, func() bool {
+				if p.EOF {
+					return true
+				}
+				for _, s := range live {
+					if s.Reply == nil {
+						return false
+					}
+				}
+				return true
+			})
+			want = settled + 1
+			rt.YieldUntil(rt.SiteActor, func() bool { return settled >= want || p.EOF })
+		}
+		for round := 0; round < int(c.cfg("rounds")) && !eager; round++ {
 			var ms1 []*Msg
 			for i := 0; i < n; i++ {
 				tag := uint16(10 + i)
@@ -117,19 +218,32 @@ func c03Version(x *Ctx) {
 		if !x.Run() {
 			return
 		}
-		if held := fs.HeldInvs(); len(held) > 0 {
+		if held := fs.HeldInvs(); len(held) > 0 && releaseOK {
 			held[x.S.Choose(len(held))].Released = true
 			continue
 		}
-		if done || len(x.Res.Viol) > 0 || settled > 8 {
+		if done || len(x.Res.Viol) > 0 || settled > 16 {
 			break
 		}
 		settled++ // quiescent with nothing parked: the client may go on
 	}
 	for i, s := range fresh {
+		if cancelled[s] && s.Reply == nil {
+			continue
+		}
 		if s.Reply == nil || s.Reply.M == nil {
 			x.Violate("r3-no-reply", "%s, sent after the Rversion of a mid-session Tversion under a tag that was outstanding before it, got no reply (request %d of %d)", s.M, i, len(fresh))
 			return
+		}
+		if s.M.Type == Tread {
+			// (the walk-less fid 0 may be a directory to the framework: an Rerror from a rule of its own is fine,
+			// a reply meant for another request is not)
+			if s.Reply.M.Type == Rread && len(s.Reply.M.Data) != int(s.M.Count) {
+				x.Violate("r5-content", "%s was answered with %d bytes: the reply of another request under the same tag", s.M, len(s.Reply.M.Data))
+			} else if s.Reply.M.Type != Rread && s.Reply.M.Type != Rerror {
+				x.Violate("r4-type", "%s was answered %s", s.M, s.Reply.M)
+			}
+			continue
 		}
 		if s.Reply.M.Type != Rstat {
 			x.Violate("r4-type", "%s was answered %s", s.M, s.Reply.M)
